@@ -6,7 +6,7 @@ from typing import Dict
 CHECKS: Dict[str, Dict[str, str]] = {
     "C12": dict(
         technique="static analysis: path-condition extraction (ast) of Constant.__init__ decided on a complete finite "
-        "abstract domain (7 type kinds x 6 value kinds x 5 range positions) + constant folding of the extracted "
+        "abstract domain (7 type kinds x 7 value kinds x 5 range positions) + constant folding of the extracted "
         "inclusive_value_range expressions for every width",
         text="Static decision of the constant-compliance rules from the source: the acceptance predicate of "
         "Constant.__init__ is extracted as path conditions and compared with the Specification on every abstract state "
@@ -97,6 +97,21 @@ CHECKS: Dict[str, Dict[str, str]] = {
         "handler is invoked only by the @print directive handler.",
         note="Trusted: file names are inspected when a directory is listed (allowed by the property); call graph resolution as in C16.",
         design="3/C19",
+    ),
+    "C13": dict(
+        technique="static analysis: interprocedural exception-flow over the resolved call graph (explicit raises, a fixed table of "
+        "implicit partial operations, handler matching over the class hierarchy, model of the parsimonious visitor wrapper), "
+        "value-kind inference for guarded constructors, regex-language inclusion for int()/Fraction() on grammar terminals",
+        text="Computes, for read_namespace/read_files, every (exception class, origin) pair that can escape, following re-raise, "
+        "translation and the visitor's VisitationError wrapping; anything that is not an InvalidDefinitionError (in particular "
+        "everything that ends in an InternalError sink) must be discharged by a checked argument - typed-guard constructors by "
+        "kind inference at every call site, int()/Fraction() on terminals by DFA inclusion, literal-table lookups by enum "
+        "totality, indexing by dominating guards, abstract bodies by override completeness, service-type receivers by "
+        "constructor guards - or is reported with its witness path. Four genuine defects found this way were repaired "
+        "(see known_findings.json); termination and interpreter resource limits are assumptions, not decided.",
+        note="Trusted: the implicit-operation table (int/Fraction/chr/next/encode/log2/operator.*/literal tables/indexing); ~400 asserts "
+        "and grammar-arity unpackings are counted assumptions; OSError and path-argument handling are outside the property.",
+        design="3/C13",
     ),
 }
 
